@@ -42,8 +42,8 @@ LEVEL_TEXT = ("History monitor: every fit-return event of ConfigLoader.fit is lo
               "names the library offers, constraint sets, starts, early stops and repeated fits.")
 TECHNIQUE = "history log of fit-return events + offline consistency checker (state vs result vs files)"
 
-QUICK_METHODS = ["BFGS", "CG", "L-BFGS-B", "Newton-CG", "iminuit", "trust-ncg", "trust-exact"]
-ALL_METHODS = ["BFGS", "CG", "L-BFGS-B", "Newton-CG", "trust-krylov", "trust-ncg", "trust-exact", "iminuit", "Newton-CG-p", "trust-krylov-p", "trust-ncg-p"]
+QUICK_METHODS = ["BFGS", "CG", "L-BFGS-B", "Newton-CG", "iminuit", "trust-ncg", "trust-exact", "Nelder-Mead"]
+ALL_METHODS = ["BFGS", "CG", "L-BFGS-B", "Newton-CG", "trust-krylov", "trust-ncg", "trust-exact", "iminuit", "Newton-CG-p", "trust-krylov-p", "trust-ncg-p", "Nelder-Mead"]
 
 
 def quiet():
@@ -260,9 +260,13 @@ def run(ctx):
                 ctx.covered("constraint", kk)
             return r
 
-        r1 = one_fit("first", maxiter=None, start="far" if i % 2 else "near")
+        # the simplex method needs thousands of evaluations to converge: it is always stopped early (its returned point is the best
+        # vertex, not the last evaluated one, which is what makes it worth having here)
+        # (a fit that runs into an active one-sided bound creeps along the transformed coordinate: capped as well)
+        full = 60 if method == "Nelder-Mead" else (150 if active_bound is not None else None)
+        r1 = one_fit("first", maxiter=full, start="far" if i % 2 else "near")
         r2 = one_fit("early stop", maxiter=int(rng.choice([1, 3])), start="far")
-        r3 = one_fit("repeated", maxiter=None, start="near")
+        r3 = one_fit("repeated", maxiter=full, start="near")
         last = r3 or r1
         # (8) file round trips into a freshly built model
         if last is not None:
